@@ -1,12 +1,73 @@
 """C01 - 32-bit instructions encode exactly as the RISC-V specification defines (and injectively)."""
-from ..core import Report
+from ..core import Report, Finding
 from ..facts import Facts
 from .. import oracle, encprops
 
 LEVEL = 'proof'
 
 
+def _walk_one(args):
+    """Worker: enumerate every accepted immediate of one mnemonic (x 3 register choices) over the derived closed form and decode
+    each word with the generic format decoder."""
+    import sys
+    repo_root, m = args
+    from ..core import Repo
+    from ..encsum import all_summaries, derived_operand, canon
+    from ..comprel import encode_closed_form
+    facts = Facts(Repo(repo_root).asm)
+    s = all_summaries(facts)[m]
+    spec = oracle.RV32[m]
+    fmt = oracle.RV32_FORMAT.get(m)
+    if fmt is None or s.always_refused:
+        return m, 0, None
+    imm_param = [p for p, op in zip(s.params, spec['operands']) if op['kind'] == 'imm']
+    reg_params = [p for p, op in zip(s.params, spec['operands']) if op['kind'] in ('reg', 'num5')]
+    role = {p: op['role'] for p, op in zip(s.params, spec['operands'])}
+    if len(imm_param) != 1:
+        return m, 0, None
+    ip = imm_param[0]
+    cells = canon(derived_operand(s, ip)['cells'])
+    n = 0
+    key = {'U': 'imm_u', 'J': 'imm_j', 'B': 'imm_b', 'S': 'imm_s', 'I': 'imm_i'}[fmt]
+    for regs in ((0,) * len(reg_params), (31,) * len(reg_params), tuple((21 + 3 * i) % 32 for i in range(len(reg_params)))):
+        ops = dict(zip(reg_params, regs))
+        for (lo, hi, delta, mm, r) in cells:
+            if lo < -(1 << 24) or hi > (1 << 24):
+                return m, n, 'unbounded accepted set'
+            for v in range(lo, hi + 1, mm):
+                ops[ip] = v
+                w = encode_closed_form(s, ops)
+                f = oracle.rv32_fields(w)
+                n += 1
+                want = v + delta
+                if f[key] != want:
+                    return m, n, '{} {}={} encodes to 0x{:08x} whose {} immediate is {}'.format(m, ip, v, w, fmt, f[key])
+                for p, rv in zip(reg_params, regs):
+                    fld = {'rd': 'rd', 'rs1': 'rs1', 'rs2': 'rs2', 'uimm': 'rs1', 'shamt': 'rs2'}[role[p]]
+                    if f[fld] != rv:
+                        return m, n, '{} {}={} lands in field value {}'.format(m, p, rv, f[fld])
+    return m, n, None
+
+
+def forward_walk(rep, facts, mns):
+    """thorough: every accepted immediate of every immediate-carrying 32-bit mnemonic, encoded by the *derived closed form* and
+    decoded by an independent generic format decoder (the repository is not executed)."""
+    import concurrent.futures
+    root = REPO_ROOT[0]
+    total = 0
+    with concurrent.futures.ProcessPoolExecutor(max_workers=16) as ex:
+        for m, n, err in ex.map(_walk_one, [(root, m) for m in mns if m in oracle.RV32_FORMAT]):
+            total += n
+            rep.check(err is None, 'R1.forward-walk', '{}: {} accepted tuples decode to the operands that were encoded'.format(m, n),
+                      lambda m=m, err=err: Finding('R1.forward-walk', m, m, err, line=encprops.binding_line(facts, m)), nontrivial=n > 0)
+    rep.analysed['forward-walk encodings decoded'] = total
+
+
+REPO_ROOT = [None]
+
+
 def run(repo, tier):
+    REPO_ROOT[0] = repo.root
     facts = Facts(repo.asm)
     rep = Report('C01', LEVEL,
                  'Bit-provenance abstract interpretation of the 9 32-bit format encoders under the constants bound by each of '
@@ -26,6 +87,8 @@ def run(repo, tier):
     encprops.check_rebuild_invariant(rep, facts, 'R1.rebuild')
     encprops.check_registers(rep, facts, 'R1.registers')
     encprops.check_resolve_instructions(rep, facts, 'R1.pack')
+    if tier == 'thorough':
+        forward_walk(rep, facts, mns)
     rep.floor('mnemonic bindings', 66)
     rep.floor('encoder summaries', 66)
     rep.floor('parse paths analysed', 14)
